@@ -167,3 +167,47 @@ CHECKS["C09"] = {
     "outside": "more than 2 outstanding requests; counters beyond 2^24 requests after start (unreachable once the counter wraps at 24 bits); real timers",
     "assumptions": PFCP_ASSUME,
 }
+
+NL_OV = {
+    "/root/go/pkg/mod/github.com/khirono/go-nl@v1.0.5/client.go": "overlays/go-nl/client.go",
+    "/root/go/pkg/mod/github.com/khirono/go-nl@v1.0.5/request.go": "overlays/go-nl/request.go",
+}
+
+FWD_ASSUME = [
+    "netlink round trip replaced at nl.(*Client).Do by a hook (overlay of go-nl client.go/request.go, shared by engine and native replay); everything above it - go-gtp5gnl request assembly, go-nl attribute encoding, go-gtp5gnl decoding - is executed for real",
+    "amd64 byte order (NativeEndian = little endian)",
+    "golden attribute type/nesting/width table spec/netlink_widths.json (captured once from the pinned tree; kernel sources are not available offline)",
+    "logrus calls are no-ops; fmt/pkg-errors formatting is an intrinsic",
+]
+
+CHECKS["C02"] = {
+    "dep_overlays": NL_OV, "extra_pkgs": ["internal/forwarder/perio"],
+    "jobs": {
+        "quick": [{"pkg": "internal/forwarder", "entries": ["ZZ_C02_*"], "witnesses": 3, "max_paths": 200000}],
+        "thorough": [{"pkg": "internal/forwarder", "entries": ["ZZ_C02_*"], "witnesses": 6, "max_paths": 2000000, "budget_s": 3000}],
+    },
+    "covers": {"all": ["ZZ_C02_CreatePDR:C02.pdr.done", "ZZ_C02_UpdatePDR:C02.pdr.done", "ZZ_C02_RemovePDR:C02.rmpdr.done",
+                       "ZZ_C02_CreatePDR:C02.fd.uplink", "ZZ_C02_CreatePDR:C02.fd.downlink",
+                       "ZZ_C02_CreateFAR:C02.far.done", "ZZ_C02_UpdateFAR:C02.far.done", "ZZ_C02_RemoveFAR:C02.rmfar.done"]},
+    "bounds": {"quick": "Create/Update/Remove PDR and FAR with every IE payload byte, the SEID and the link index symbolic; PDR: 3 presence profiles (maximal with 2 QER ids, 2 URR ids, 2 SDF filters one of which carries a concrete flow description; minimal; typical) x 6 permutations of 4 child blocks x PDI children plain/reversed; FAR: 3 profiles (Apply Action 1/2 octets, outer header creation GTP-U or UDP, forwarding policy, SMReq flags, BAR id) x 6 permutations",
+               "thorough": "24 permutations, plus all 64x27 PDR and 9x16 FAR presence subsets in canonical order"},
+    "outside": "IPv6 variants, IEs the driver ignores (Network Instance, Application ID, Ethernet filters), IE lengths other than nominal (malformed input is C07), symbolic flow descriptions (C16)",
+    "assumptions": FWD_ASSUME,
+}
+
+CHECKS["C03"] = {
+    "dep_overlays": NL_OV, "extra_pkgs": ["internal/forwarder/perio"],
+    "jobs": {
+        "quick": [{"pkg": "internal/forwarder", "entries": ["ZZ_C03_*"], "witnesses": 3, "max_paths": 200000}],
+        "thorough": [{"pkg": "internal/forwarder", "entries": ["ZZ_C03_*"], "witnesses": 6, "max_paths": 3000000, "budget_s": 3000}],
+    },
+    "covers": {"all": ["ZZ_C03_CreateQER:C03.qer.done", "ZZ_C03_UpdateQER:C03.qer.done", "ZZ_C03_CreateURR:C03.urr.done", "ZZ_C03_CreateURR:C03.urr.perio",
+                       "ZZ_C03_CreateURR:C03.urr.nonperio", "ZZ_C03_UpdateURR:C03.urr.update.done", "ZZ_C03_RemoveURR:C03.rmurr.done",
+                       "ZZ_C03_CreateBAR:C03.bar.done", "ZZ_C03_UpdateBAR:C03.bar.done", "ZZ_C03_RemoveQERBAR:C03.rm.done"]},
+    "bounds": {
+        "quick": "Create/Update QER, URR, BAR and the removals with every IE payload byte, the SEID and the link index symbolic (40-bit rates, 64-bit volumes, flag octets, 32-bit periods >= 1 s); 3 presence profiles per rule kind (BAR: all 4 subsets); child order: every rotation, plain and reversed",
+        "thorough": "all 2^7 QER and 2^6 URR presence subsets, Reporting Triggers of 2 and 3 octets, all 8x8 threshold/quota flag subsets; same orders",
+    },
+    "outside": "duration thresholds, time quota, event-based IEs (not supported by the driver); the URR_MEASUREMENT_PERIOD netlink attribute value (nanoseconds truncated to 32 bits, marked TODO in the code) is only width-checked; IE lengths other than nominal (C07)",
+    "assumptions": FWD_ASSUME + ["spare bits of Gate Status, QFI, RQI, PPI, Measurement Method are zero (well-formed IEs)"],
+}
